@@ -163,6 +163,12 @@ func errorReturnedWhenNonNilF(e ssa.Value, flag ssa.Value) (bool, string) {
 					return
 				}
 			}
+			// the failure is reported under another name: a sentinel or a freshly made error is returned instead
+			for _, r := range x.Results {
+				if (isErrorType(r.Type()) || isErrPointerResult(r)) && !isNilConst(r) && definitelyNonNilError(r, b) {
+					return
+				}
+			}
 			fail = fmt.Sprintf("return in block %d does not return the error", b.Index)
 			return
 		case *ssa.Panic:
